@@ -1195,6 +1195,8 @@ class PlainQuantity(Generic[MagnitudeT], PrettyIPython, SharedRegistryObject):
             if other == 1:
                 return self
             elif other == 0:
+                # as in __pow__: the exponent is the number 0, whatever object said so
+                other = 0
                 self._units = self.UnitsContainer()
             else:
                 if not self._is_multiplicative:
